@@ -5,6 +5,7 @@
    SoPlexBase<R>::_solveRealLPAndRecordStatistics / _evaluateSolutionReal, [rat_round] one round of _optimizeRational. *)
 From Coq Require Import ZArith QArith List Bool.
 From SV Require Import Vec LP Cert Cert_Proofs LimitsModel Limits_Proofs.
+From SV Require DriverModel Driver_Honest.
 Import ListNotations.
 Local Open Scope Z_scope.
 
@@ -237,3 +238,46 @@ Example C16_ex_outer_unlimited :
                          {| in_simp := S_OKAY; in_objlim := true; in_events := [ev Start None; ev Pivot None; ev Pivot None; ev Optimal None] |} ]
   = {| ost := OPTIMAL; oiters := 4 |}.
 Proof. vm_compute. reflexivity. Qed.
+
+(* ---------------------------------------------------------------------------------------------------------------- *)
+(* The solve driver (DriverModel.v: optimize / _preprocessAndSolveReal / _evaluateSolutionReal and the store / verify /
+   re-solve paths, replayed against the guarded trace points on every floating-point solve of this check): the status it
+   ends with is what the LAST pass shows - the simplifier's verdict or the status of the last inner solve.  A limit status
+   of an earlier pass that was repeated is not reported, a limit status is not invented, and OPTIMAL is not claimed when
+   the last inner solve stopped at a limit.  For every oracle (= every behaviour of simplifier, simplex and verification),
+   every parameter setting, every start state and every fuel. *)
+Theorem C16_driver_reports_last_pass : forall P orc oscaled fuel s0 s',
+  DriverModel.optimize P orc oscaled fuel s0 = DriverModel.Done s' -> Driver_Honest.Honest P orc s'.
+Proof. exact Driver_Honest.driver_reports_last_pass. Qed.
+Print Assumptions C16_driver_reports_last_pass.
+
+Theorem C16_limit_status_not_invented : forall P orc oscaled fuel s0 s',
+  DriverModel.optimize P orc oscaled fuel s0 = DriverModel.Done s' -> Driver_Honest.is_limit (DriverModel.status s') = true ->
+  exists f, DriverModel.frame s' = S f /\
+    (DriverModel.o_status (orc f) = DriverModel.status s' \/ (DriverModel.o_status (orc f) = DriverModel.ABORT_CYCLING /\ DriverModel.o_cycstatus (orc f) = DriverModel.status s')).
+Proof. exact Driver_Honest.limit_status_not_invented. Qed.
+Print Assumptions C16_limit_status_not_invented.
+
+Theorem C16_optimal_not_claimed_after_limit : forall P orc oscaled fuel s0 s',
+  DriverModel.optimize P orc oscaled fuel s0 = DriverModel.Done s' -> DriverModel.status s' = DriverModel.OPTIMAL ->
+  exists f, DriverModel.frame s' = S f /\
+    (DriverModel.o_status (orc f) = DriverModel.OPTIMAL \/ (DriverModel.o_status (orc f) = DriverModel.ABORT_CYCLING /\ DriverModel.o_cycstatus (orc f) = DriverModel.OPTIMAL) \/
+     (DriverModel.p_simp P = true /\ DriverModel.o_simp (orc f) = DriverModel.S_VANISHED)).
+Proof. exact Driver_Honest.optimal_not_claimed_after_limit. Qed.
+Print Assumptions C16_optimal_not_claimed_after_limit.
+
+(* a run the theorems speak about: the first pass is OPTIMAL but fails the verification, the LP is unscaled and solved
+   again, the second pass stops at the iteration limit: the driver ends with ABORT_ITER after two passes *)
+Example C16_ex_driver_limit_in_second_pass :
+  let o (t : DriverModel.st) (vfail : bool) :=
+    {| DriverModel.o_simp := DriverModel.S_OKAY; DriverModel.o_scaled := true; DriverModel.o_status := t; DriverModel.o_throw := false; DriverModel.o_vbits := (false, vfail, false, false);
+       DriverModel.o_dualfeas := true; DriverModel.o_cycstatus := DriverModel.ABORT_CYCLING; DriverModel.o_resbasis := true |} in
+  let P := {| DriverModel.p_simp := true; DriverModel.p_scaler := true; DriverModel.p_persist := true; DriverModel.p_ensureray := false; DriverModel.p_objlim := false |} in
+  let s0 := {| DriverModel.simp_on := false; DriverModel.scaler_on := true; DriverModel.loaded := true; DriverModel.scaled := false; DriverModel.sol_scaled := false; DriverModel.intl := false;
+               DriverModel.has_basis := false; DriverModel.status := DriverModel.OTHER 0; DriverModel.has_sol := false; DriverModel.has_ray := false; DriverModel.has_farkas := false; DriverModel.apply_pol := false;
+               DriverModel.objlim_en := true; DriverModel.opt_calls := 0; DriverModel.unsc_calls := 0; DriverModel.sol_space := DriverModel.user_space; DriverModel.sol_ok := false; DriverModel.frame := O; DriverModel.trace := [] |} in
+  match DriverModel.optimize P (fun k => if Nat.eqb k 0 then o DriverModel.OPTIMAL true else o DriverModel.ABORT_ITER false) true DriverModel.FUEL s0 with
+  | DriverModel.Done r => DriverModel.status r = DriverModel.ABORT_ITER /\ DriverModel.frame r = 2%nat
+  | _ => False
+  end.
+Proof. vm_compute. repeat split. Qed.
